@@ -324,6 +324,7 @@ func c14Execute(tr *ceremonyTrace, rec opRecord, msgs []storage.Message, sc c14S
 		pre[s] = true
 	}
 	var switches []string
+	bothBlocked := 0
 	for step := 0; step < 2000; step++ {
 		if finished(P) && finished(A) {
 			break
@@ -333,6 +334,19 @@ func c14Execute(tr *ceremonyTrace, rec opRecord, msgs []storage.Message, sc c14S
 		}
 		release(cur)
 		o.Steps++
+		if blocked[A] && blocked[P] && !finished(A) && !finished(P) {
+			bothBlocked++
+			sa, sp := goroutineState(idOf(A)), goroutineState(idOf(P))
+			waits := func(s string) bool { return strings.Contains(s, "Mutex") || strings.Contains(s, "semacquire") }
+			if bothBlocked >= 12 && waits(sa) && waits(sp) && c14OnDeadlock != nil {
+				// each actor waits for a lock the other holds: no schedule step can ever be taken again. The two
+				// goroutines cannot be unwound, so the finding is recorded and the worker process ends here.
+				c14OnDeadlock(fmt.Sprintf("API request and poller wait for each other's locks and neither can ever continue (first=%d, pre-emptions at steps %v, after %d steps); API request goroutine: %s | poller goroutine: %s",
+					sc.First, sc.Preempt, o.Steps, clip(lockFrames(idOf(A)), 400), clip(lockFrames(idOf(P)), 400)), sc)
+			}
+		} else {
+			bothBlocked = 0
+		}
 		if blocked[cur] && !finished(1-cur) {
 			cur = 1 - cur // forced hand-over: the actor waits for the other one's lock
 			continue
@@ -370,6 +384,32 @@ func c14Execute(tr *ceremonyTrace, rec opRecord, msgs []storage.Message, sc c14S
 	o.Pending = ids
 	_ = trace
 	return
+}
+
+// c14OnDeadlock is installed by TestC14: it records the violation, flushes the statistics and ends the process (a
+// deadlocked pair of goroutines cannot be unwound and would keep the synctest bubble from ever finishing).
+var c14OnDeadlock func(desc string, sc c14Schedule)
+
+// lockFrames returns the function names on a goroutine's stack that belong to the code under test.
+func lockFrames(id uint64) string {
+	buf := make([]byte, 1<<20)
+	n := runtime.Stack(buf, true)
+	var out []string
+	for _, g := range strings.Split(string(buf[:n]), "\n\n") {
+		if !strings.HasPrefix(g, fmt.Sprintf("goroutine %d ", id)) {
+			continue
+		}
+		for _, line := range strings.Split(g, "\n") {
+			if strings.HasPrefix(line, "github.com/lidofinance/dc4bc/") {
+				f := strings.TrimPrefix(line, "github.com/lidofinance/dc4bc/")
+				if i := strings.LastIndex(f, "("); i > 0 {
+					f = f[:i]
+				}
+				out = append(out, f)
+			}
+		}
+	}
+	return strings.Join(out, " <- ")
 }
 
 func c14Judge(pr c14Pair, sc c14Schedule, o, serialAP, serialPA c14Outcome) *viol {
@@ -441,6 +481,21 @@ func c14Pairs() []c14Pair {
 func TestC14(t *testing.T) {
 	st := vstat.New("C14")
 	defer finish(t, st)
+	c14OnDeadlock = func(desc string, sc c14Schedule) {
+		kind := "submit-result"
+		if sc.Pair.Reset {
+			kind = "reset-state"
+		}
+		v := violf("deadlock:"+kind, "%+v: %s", sc.Pair, desc)
+		if st.IsKnown(v.Key) {
+			st.KnownHit(v.Key)
+		} else {
+			st.Violation(v.Key, v.What, wrapReplay("schedules", sc))
+		}
+		st.Flush()
+		fmt.Printf("--- FAIL: %s\n", v.Error())
+		os.Exit(1)
+	}
 
 	run := func(tr *ceremonyTrace, rec opRecord, msgs []storage.Message, sc c14Schedule) (o c14Outcome) {
 		synctest.Test(t, func(t *testing.T) {
